@@ -64,6 +64,11 @@ Inductive case :=
    returned, the real reader's result; then write-outs ws2 run fault-free on the crashed tree: their results
    and the reader's result afterwards.  part = Some n: the last applied Write was cut to its first n bytes *)
 | CCrash (ws : list writeout) (k : nat) (part : option nat) (ups : list updir) (days : list daydigest) (done : nat)
+         (rd : obs_read) (ws2 : list writeout) (ok2 : list bool) (rd2 : obs_read)
+(* the same observation, judged only AFTER the further write-outs: used for the kill point between the two
+   renames (known finding for the state before the next write-out): once a write-out to that day has
+   completed, view AND listing totals must be those of all committed write-outs again *)
+| CCrashPost (ws : list writeout) (k : nat) (part : option nat) (ups : list updir) (days : list daydigest) (done : nat)
          (rd : obs_read) (ws2 : list writeout) (ok2 : list bool) (rd2 : obs_read).
 
 Definition cut_last_write (ops : list fsop) (part : option nat) : list fsop :=
@@ -93,7 +98,8 @@ Definition corr (c : case) : bool :=
     let ops := hist_ops fs_empty ws in
     list_eqb fsop_eqb ops (map fst obs) && list_eqb Bool.eqb (results fs_empty ops) (map snd obs)
     && read_eqb (reader (apply_all fs_empty ops)) rd
-  | CCrash ws k part ups days done rd ws2 ok2 rd2 =>
+  | CCrash ws k part ups days done rd ws2 ok2 rd2
+  | CCrashPost ws k part ups days done rd ws2 ok2 rd2 =>
     let s := crash_state ws k part in
     digest_eqb s ups days && Nat.eqb (completed fs_empty ws k) done && read_eqb (reader s) rd
     && (let (s2, oks) := run_hist s ws2 in list_eqb Bool.eqb oks ok2 && read_eqb (reader s2) rd2)
@@ -110,4 +116,7 @@ Definition holds (c : case) : bool :=
      || (Nat.ltb done (length ws) && meets rd (firstn (S done) ws) && forallb (fun b => b) ok2
          && meets rd2 (firstn (S done) ws ++ ws2)))
     && Nat.eqb (length ok2) (length ws2)
+  | CCrashPost ws k part ups days done rd ws2 ok2 rd2 =>
+    forallb (fun b => b) ok2 && Nat.eqb (length ok2) (length ws2) && negb (Nat.eqb (length ws2) 0)
+    && (meets rd2 (firstn done ws ++ ws2) || (Nat.ltb done (length ws) && meets rd2 (firstn (S done) ws ++ ws2)))
   end.
